@@ -6,7 +6,7 @@
 (* expected observation.  Where Router is nondeterministic several behaviours with the    *)
 (* same inputs are printed; the implementation must follow one of them.                   *)
 EXTENDS Router, Json, SequencesExt
-CONSTANT Depth
+CONSTANTS Depth, Thin
 VARIABLE hist
 
 KeyRec(k) == [n |-> k[1], m |-> k[2], p |-> k[3]]
@@ -42,5 +42,7 @@ GSpec == GInit /\ [][GNext]_<<vars, hist>>
 
 Bound == TLCGet("level") <= Depth
 EmitStep == PrintT(<<"BEH", ToJson(hist')>>)
+\* simulation mode: the invariant is evaluated on every candidate successor - print about one in Thin
+EmitEnd == (TLCGet("level") = Depth /\ RandomElement(1 .. Thin) = 1) => PrintT(<<"BEH", ToJson(hist)>>)
 AbstractView == <<uval, open, uver, st, age, cache, active, restart>>
 =============================================================================
